@@ -20,6 +20,8 @@ func init() {
 }
 
 func runC07(c *core.Ctx) {
+	c.Rule("PARSEPAN", "the query parser does not panic on grammatical input")
+	checkParserPanics(c, "PARSEPAN")
 	c.Rule("PAN1", "no integer division by a possibly-zero divisor")
 	c.Rule("PAN2", "query-controlled indices, slice bounds and repeat counts are guarded")
 	c.Rule("PAN5", "enum switches that assert exhaustiveness list every constant")
